@@ -120,8 +120,46 @@ func swapOperators(n jnode, repl jnode) (jnode, bool) {
 }
 
 // undecodedEnvelope looks for a raw []any element whose first entry is a recognised stack label.
+// c16WellFormedRow: a CONDITION row that leaves Marshal no excuse: keyword text, a usable operator, and an
+// expression that is a non-empty text, a number, a stack envelope with a recognised label or another
+// well-formed CONDITION row.
+func c16WellFormedRow(sl []any) bool {
+	if len(sl) != 4 {
+		return false
+	}
+	lab, isStr := sl[0].(string)
+	if !isStr || !strings.EqualFold(lab, "CONDITION") {
+		return false
+	}
+	kw, kwOK := sl[1].(string)
+	op, opOK := sl[2].(stackage.Operator)
+	if !kwOK || kw == "" || !opOK || op == nil || isNilPtr(op) {
+		return false
+	}
+	txt := ""
+	if noPanic(func() { txt = op.String() }) != "" || txt == "" || strings.Contains(txt, "invalid") {
+		return false
+	}
+	switch ex := sl[3].(type) {
+	case string:
+		return ex != ""
+	case int:
+		return true
+	case []any:
+		if len(ex) >= 2 {
+			if el, isStr := ex[0].(string); isStr {
+				if _, known := c16Labels[strings.ToUpper(el)]; known {
+					return true
+				}
+				return c16WellFormedRow(ex)
+			}
+		}
+	}
+	return false
+}
+
 func undecodedEnvelope(v any, depth int) string {
-	if depth > 6 {
+	if depth > 48 {
 		return ""
 	}
 	if s, ok := refAsStack(v); ok && s.IsInit() {
@@ -129,6 +167,9 @@ func undecodedEnvelope(v any, depth int) string {
 			if sl, isSl := e.([]any); isSl && len(sl) > 0 {
 				if lab, isStr := sl[0].(string); isStr {
 					if _, known := c16Labels[strings.ToUpper(lab)]; known {
+						return fmt.Sprint(sl)
+					}
+					if c16WellFormedRow(sl) {
 						return fmt.Sprint(sl)
 					}
 				}
@@ -275,7 +316,7 @@ func c16Run(c *Ctx, cs c16Case, count bool, neighbours ...jnode) {
 	}
 	// every nested envelope that starts with a recognised stack label must have been decoded
 	if raw := undecodedEnvelope(recv, 0); raw != "" {
-		c.Violation("nested-envelope-not-decoded", desc+": a nested envelope with a recognised label was left as a raw slice: "+raw, cs, size)
+		c.Violation("nested-envelope-not-decoded", desc+": a nested envelope with a recognised label (a stack, or a well-formed CONDITION row) was left as a raw slice: "+raw, cs, size)
 	}
 	// effective input after stripping single-element envelopes
 	eff := in
@@ -455,6 +496,32 @@ func c16Inputs(c *Ctx) []jnode {
 		es[n-1] = s("last") // the final entry is a plain value, so that its loss shows in the count
 		out = append(out, l(append([]jnode{s("LIST")}, es...)...), l(append([]jnode{s("junk")}, es...)...), l(append([]jnode{s("and")}, es...)...),
 			l(s("OR"), l(append([]jnode{s("AND")}, es...)...), s("tail")), l(s("CONDITION"), s("k"), jnode{T: "op"}, l(append([]jnode{s("NOT")}, es...)...)))
+	}
+	// ... many rows that are envelopes themselves (CONDITION rows whose expression is an envelope, stack
+	// envelopes), and envelopes nested many levels deep (stacks in stacks, Conditions in Conditions, alternating)
+	for _, n := range []int{14, 15, 16, 17, 18, 32, 33, 65, 70} {
+		var rows, stacks, mixed []jnode
+		for i := 0; i < n; i++ {
+			row := l(s("CONDITION"), s(fmt.Sprintf("k%d", i)), jnode{T: "op"}, l(s("OR"), s(fmt.Sprintf("a%d", i))))
+			st := l(s([]string{"AND", "or", "Not", "LIST"}[i%4]), s(fmt.Sprintf("s%d", i)))
+			rows, stacks = append(rows, row), append(stacks, st)
+			mixed = append(mixed, []jnode{row, st, s(fmt.Sprintf("m%d", i)), l(s("CONDITION"), s("p"), jnode{T: "uop"}, s("plain"))}[i%4])
+		}
+		out = append(out, l(append([]jnode{s("AND")}, rows...)...), l(append([]jnode{s("LIST")}, stacks...)...), l(append([]jnode{s("or")}, mixed...)...),
+			l(s("NOT"), l(append([]jnode{s("AND")}, rows...)...), s("tail")))
+	}
+	for _, d := range []int{5, 6, 9, 15, 16, 17, 18, 33, 40} {
+		sc, cc, alt := l(s("BASIC"), s("bottom")), l(s("CONDITION"), s("k0"), jnode{T: "op"}, s("bottom")), l(s("OR"), s("bottom"))
+		for lvl := 1; lvl < d; lvl++ {
+			sc = l(s([]string{"AND", "or", "Not", "LIST"}[lvl%4]), s(fmt.Sprintf("l%d", lvl)), sc)
+			cc = l(s("CONDITION"), s(fmt.Sprintf("k%d", lvl)), jnode{T: "op"}, cc)
+			if lvl%2 == 0 {
+				alt = l(s("AND"), alt, s(fmt.Sprintf("r%d", lvl)))
+			} else {
+				alt = l(s("CONDITION"), s(fmt.Sprintf("c%d", lvl)), jnode{T: "uop"}, alt)
+			}
+		}
+		out = append(out, sc, l(s("LIST"), cc), l(s("AND"), alt), alt)
 	}
 	// width up to 4/5 over a small alphabet
 	w := []jnode{s("AND"), s("x"), {T: "nil"}, l(), l(s("CONDITION"), s("k"), s("="), s("v")), {T: "cond0"}}
